@@ -115,10 +115,12 @@ def execute(aiu, events, T, fails=(), dur=0.0, *, form='direct', settle=None, en
                 if gap:
                     await asyncio.sleep(gap)
                 kind = op[0]
-                if kind == 'put':
+                if kind in ('put', 'put_late'):
                     obs.submits.append({'t': world.now, 'kind': kind, 'values': [op[1]], 'ok_prefix': [op[1]],
                                         'immediate': True})
                     buf(op[1])
+                    if kind == 'put_late':      # arrives only op[2] loop iterations before the next timer
+                        world.creep_in = op[2]
                 elif kind == 'await':
                     _, x, delay, fail = op
 
